@@ -167,8 +167,8 @@ func runConc(c concCase) harness.Result {
 	mon.Plan = func(n int, replyLen int) ([]int, []int) {
 		// called with the monitor lock held: read the last arrival directly
 		r := monRef.Arrivals[n-1]
-		if r.Addr == 60000 {
-			return nil, nil // the ageing calls (see Age): whole reply at once, no yields
+		if r.Addr == 60000 || r.FC == 17 {
+			return nil, nil // the ageing calls (see Age) and Read Server ID: whole reply at once, no yields
 		}
 		cl := plans[r.Addr]
 		return planFor(c.Kind, cl.Plan, r.FC, replyLen)
@@ -491,7 +491,9 @@ func genConc(t *rapid.T) concCase {
 		n = rapid.IntRange(2, 4).Draw(t, "workers_serial")
 		maxCalls = 2
 	}
-	fcs := []uint8{1, 3, 4, 6, 15, 16}
+	// (17 = Read Server ID on the TCP client: a reply - up to 250 bytes - whose length the request does not let the client anticipate;
+	// always delivered in one piece, because how the clients find the end of a fragmented FC17 reply is C07's listed finding)
+	fcs := []uint8{1, 3, 4, 6, 15, 16, 17, 17}
 	if c.Kind != "tcp" {
 		fcs = []uint8{3, 4, 15, 16}
 	}
@@ -502,10 +504,10 @@ func genConc(t *rapid.T) concCase {
 		var calls []call
 		for i := 0; i < m; i++ {
 			cl := call{FC: rapid.SampledFrom(fcs).Draw(t, "fc"), Plan: rapid.Uint64().Draw(t, "plan"), Pause: rapid.IntRange(0, 5).Draw(t, "pause")}
-			if rapid.IntRange(0, 5).Draw(t, "exception") == 0 {
+			if cl.FC != 17 && rapid.IntRange(0, 5).Draw(t, "exception") == 0 {
 				cl.Exc = rapid.SampledFrom([]uint8{1, 2, 3, 4, 5, 6, 6, 8, 10, 11}).Draw(t, "exc_code")
 			}
-			if withCancel {
+			if withCancel && cl.FC != 17 {
 				if rapid.IntRange(0, 2).Draw(t, "delayed") == 0 {
 					cl.DelayUs = rapid.SampledFrom([]int{500, 1500, 3000}).Draw(t, "delay_us")
 					if isSerial(c.Kind) {
